@@ -84,7 +84,7 @@ fn scan_all(dir: &str) -> Vec<Rec> {
 }
 
 /// what the harness knows each record was written for: ts -> set of (db name, key name or "", kind)
-type Expected = BTreeMap<u64, BTreeSet<(String, String, u8)>>;
+type Expected = BTreeMap<Rec, BTreeSet<(String, String, u8)>>;
 
 struct World {
     node: Option<Node>,
@@ -117,11 +117,16 @@ fn connect_admin(node: &Node) -> Session {
 }
 
 /// after a command: the records that appeared belong to `cands`
-fn absorb(w: &mut World, cands: &[(String, String, u8)]) {
+fn absorb(w: &mut World, cands: &[(String, String, u8)], positional: bool) {
     let all = scan_all(&w.dir);
-    for r in all {
-        if w.seen.insert(r.clone()) {
-            let e = w.expected.entry(r.ts).or_default();
+    let fresh: Vec<Rec> = all.into_iter().filter(|r| !w.seen.contains(r)).collect();
+    for (j, r) in fresh.iter().enumerate() {
+        w.seen.insert(r.clone());
+        let e = w.expected.entry(r.clone()).or_default();
+        if positional && fresh.len() == cands.len() {
+            // one record per named database, in the order they were named
+            e.insert(cands[j].clone());
+        } else {
             for c in cands {
                 e.insert(c.clone());
             }
@@ -166,7 +171,7 @@ fn judge_boot(ctx: &Ctx, known_hits: &mut BTreeMap<String, u64>, lost: &BTreeSet
     let recs = scan_all(dir);
     if node.oplog_discarded_at_boot {
         // discarded: nothing of the old log may be left, the node asks for a full resynchronisation (last op time 0)
-        let old: Vec<&Rec> = recs.iter().filter(|r| expected.contains_key(&r.ts)).collect();
+        let old: Vec<&Rec> = recs.iter().filter(|r| expected.contains_key(*r)).collect();
         crate::node::use_dir(dir);
         let last = nundb::disk_ops::Oplog::last_op_time();
         if !old.is_empty() || last != 0 {
@@ -178,7 +183,7 @@ fn judge_boot(ctx: &Ctx, known_hits: &mut BTreeMap<String, u64>, lost: &BTreeSet
     let id_key = node.dbs.id_keys_map.read().unwrap().clone();
     let mut dangling = false;
     for r in recs.iter() {
-        let cands = match expected.get(&r.ts) {
+        let cands = match expected.get(r) {
             Some(c) => c,
             None => continue, // written by this very start-up (election records are not logged; defensive)
         };
@@ -243,7 +248,7 @@ fn exec(ctx: &Ctx, w: &mut World, st: &Step) -> Option<(String, String)> {
             w.created_total += 1;
             w.inc[*db] += 1;
             let q = format!("{}#{}", dbn(*db), w.inc[*db]);
-            absorb(w, &[(q, String::new(), 2)]);
+            absorb(w, &[(q, String::new(), 2)], false);
             let node = w.node.as_ref().unwrap();
             ids_unique(node)
         }
@@ -261,7 +266,7 @@ fn exec(ctx: &Ctx, w: &mut World, st: &Step) -> Option<(String, String)> {
             node.pump();
             // the session's own $connections bookkeeping is replicated too (key "$connections")
             let q = format!("{}#{}", dbn(*db), w.inc[*db]);
-            absorb(w, &[(q.clone(), format!("k{}", key), kind), (q, "$connections".to_string(), 0)]);
+            absorb(w, &[(q.clone(), format!("k{}", key), kind), (q, "$connections".to_string(), 0)], false);
             let node = w.node.as_ref().unwrap();
             ids_unique(node)
         }
@@ -276,7 +281,7 @@ fn exec(ctx: &Ctx, w: &mut World, st: &Step) -> Option<(String, String)> {
             node.snapshot_tick();
             let inc = w.inc;
             let cands: Vec<(String, String, u8)> = names.iter().map(|n| (format!("{}#{}", n, inc[n[1..].parse::<usize>().unwrap()]), String::new(), 3)).collect();
-            absorb(w, &cands);
+            absorb(w, &cands, true);
             None
         }
         Step::RestartClean | Step::RestartKill => {
